@@ -1,5 +1,6 @@
 import LP.Props.C20
 import LP.Props.C20Heap
+import LP.Props.C20HeapOrder
 #print axioms LP.SpecSet.C20_spec_insert
 #print axioms LP.SpecSet.C20_spec_remove
 #print axioms LP.SpecSet.C20_spec_size
@@ -14,3 +15,10 @@ import LP.Props.C20Heap
 #print axioms LP.Heap.C20_heap_push_perm
 #print axioms LP.Heap.C20_heap_pop_perm
 #print axioms LP.Heap.C20_heap_remove_perm
+#print axioms LP.Heap.siftUp_ok
+#print axioms LP.Heap.siftDown_ok
+#print axioms LP.Heap.C20_heap_push_ok
+#print axioms LP.Heap.C20_heap_pop_ok
+#print axioms LP.Heap.C20_heap_remove_ok
+#print axioms LP.Heap.C20_heap_peek_max
+#print axioms LP.Heap.C20_heap_reachable_ok
